@@ -408,29 +408,42 @@ fn report_heads(out: &str) -> Vec<(usize, char)> {
         .collect()
 }
 
-/// snapshot used by the documentation checks: (index, pid, alive, state text)
-type Snap = Vec<(usize, i32, bool, String)>;
+/// snapshot used by the documentation checks: (index, pid, alive, state text, name)
+type Snap = Vec<(usize, i32, bool, String, String)>;
 
 fn snapshot(l: &JobList) -> Snap {
-    l.iter().map(|(i, j)| (i, j.pid.0, j.state.is_alive(), show_state(&j.state))).collect()
+    l.iter()
+        .map(|(i, j)| (i, j.pid.0, j.state.is_alive(), show_state(&j.state), j.name.clone()))
+        .collect()
 }
 
-/// the job the documentation says an operand designates, for the unambiguous forms only
-/// (`%`, `%%`, `%+`, `%-`, `%<digits>` with a value ≥ 1); `None` = not one of these forms
+/// The job the documentation (docs/src/interactive/job_control.md, "Job IDs") says an operand
+/// designates: `%`, `%%`, `%+` the current job; `%-` the previous job; `%n` (decimal digits, n ≥ 1) job
+/// number n; `%?foo` the job whose command string contains `foo`; `%foo` … starts with `foo`.
+/// Outer `None`: not a job ID.  Inner `None`: no such job, or not exactly one.
 fn doc_simple(op: &str, cur: Option<usize>, prev: Option<usize>, snap: &Snap) -> Option<Option<usize>> {
     let t = op.strip_prefix('%')?;
-    match t {
-        "" | "%" | "+" => Some(cur),
-        "-" => Some(prev),
-        _ if t.chars().all(|c| c.is_ascii_digit()) => {
-            let n: usize = t.parse().ok()?;
-            if n == 0 {
-                return None;
+    let unique = |pred: &dyn Fn(&str) -> bool| -> Option<usize> {
+        let v: Vec<usize> = snap.iter().filter(|e| pred(&e.4)).map(|e| e.0).collect();
+        if v.len() == 1 { Some(v[0]) } else { None }
+    };
+    Some(match t {
+        "" | "%" | "+" => cur,
+        "-" => prev,
+        _ => {
+            if let Some(sub) = t.strip_prefix('?') {
+                unique(&|n| n.contains(sub))
+            } else if t.chars().all(|c| c.is_ascii_digit()) && t.chars().any(|c| c != '0') {
+                // a number too large for any table designates no job
+                match t.parse::<u128>() {
+                    Ok(n) => snap.iter().find(|e| (e.0 as u128) + 1 == n).map(|e| e.0),
+                    Err(_) => None,
+                }
+            } else {
+                unique(&|n| n.starts_with(t))
             }
-            Some(snap.iter().find(|e| e.0 == n - 1).map(|e| e.0))
         }
-        _ => None,
-    }
+    })
 }
 
 /// FNV-1a (64 bit)
@@ -514,7 +527,7 @@ fn run_case(case: &str) -> (String, String, String) {
                         }
                         report_heads(&ran.stdout).iter().map(|(n, _)| n.wrapping_sub(1)).collect()
                     };
-                    for (i, pid, alive, st) in &snap {
+                    for (i, pid, alive, st, _) in &snap {
                         let now = l.get(*i);
                         if reported.contains(i) && !alive {
                             if now.is_some() {
@@ -534,7 +547,7 @@ fn run_case(case: &str) -> (String, String, String) {
                 let wd = world.get_or_insert_with(World::new);
                 let (cur, prev, snap) = (l.current_job(), l.previous_job(), snapshot(&l));
                 // the process group of every job that is alive exists
-                for (_, pid, alive, _) in &snap {
+                for (_, pid, alive, _, _) in &snap {
                     if *alive {
                         let st = l.get(l.find_by_pid(Pid(*pid)).unwrap()).unwrap().state;
                         wd.add_process(Pid(*pid), Pid(1), st);
@@ -570,6 +583,7 @@ fn run_case(case: &str) -> (String, String, String) {
                     return ("bad-case".into(), "-".into(), String::new());
                 }
                 let wd = world.get_or_insert_with(World::new);
+                let (cur0, prev0, snap0) = (l.current_job(), l.previous_job(), snapshot(&l));
                 // the job the built-in is going to resume, found with the real job-ID code; only
                 // that job gets a process, a child of the shell in the state the table records
                 let target: Option<usize> = match args.iter().copied().filter(|a| *a != "--").collect::<Vec<_>>().as_slice() {
@@ -610,7 +624,17 @@ fn run_case(case: &str) -> (String, String, String) {
                 if !ran.stuck && ran.stderr.is_empty() {
                     // "If the resumed job finishes, it is removed from the job list.  If the job gets
                     // suspended again, it is set as the current job."
+                    // the job resumed is the one the documentation designates
+                    let operands: Vec<&str> = args.iter().copied().filter(|a| *a != "--").collect();
+                    let doc_target = match operands.as_slice() {
+                        [] => Some(cur0),
+                        [op] => doc_simple(op, cur0, prev0, &snap0),
+                        _ => None,
+                    };
                     match (target, final_state) {
+                        (Some(i), _) if doc_target.is_some() && doc_target != Some(Some(i)) => {
+                            doc = Some("fg-designation".into());
+                        }
                         (Some(i), Some(f)) => {
                             if f.is_stopped() {
                                 if l.current_job() != Some(i) {
